@@ -19,7 +19,7 @@ Definition catalogue : list (string * cover) := [
   ("src/layer.rs|Layer::load_impl/parallel map|let glyphs = iter .map(|(name, glyph_path)| { let name = names.get(name); let glyph_path = path.join(glyph_path); Glyph::load_with_names(&glyph_path, names) .map_err(|source| LayerLoadError::Glyph { name: name.to_string(), path: glyph_path, source, }) .map(|mut glyph| { glyph.name = name.clone(); (name, glyph) }) }) .collect::<Result<_, _>>()?;",
      ByLemma ["par_layer_spec"; "par_layer_ok_iff"; "run_done_perm"; "fold_ins_perm"]);
   ("src/layer.rs|Layer::save_with_options/parallel for_each|iter.try_for_each(|(name, glyph_path)| { let glyph = self.glyphs.get(name).expect(""all glyphs in contents must exist.""); let glyph_path = path.join(glyph_path); glyph.save_with_options(&glyph_path, opts).map_err(|source| LayerWriteError::Glyph { name: glyph.name.to_string(), path: glyph_path, source, }) }) }",
-     ByLemma ["par_save_spec"; "par_save_ok_iff"]);
+     ByLemma ["par_save_spec"; "par_save_ok_iff"; "par_save2_equiv"]);
   ("src/datastore.rs|<top>|cell::RefCell,",
      NotShared "Store<T> holds RefCell, is not Sync and is not captured by the two parallel closures (they capture names, path, self.glyphs, opts)");
   ("src/datastore.rs|<top>|sync::Arc,",
